@@ -880,6 +880,92 @@ theorem C06_select_qualifier_terminates (u : List Nat) (h : Hier) (hc : Closed u
   have hm : selectSearchMarkStable = true := by decide
   rw [hm]; exact visit_terminates u h hc marked e he
 
+/-! ## nesting depth -/
+
+theorem Tree.height_pos (t : Tree) : 1 ≤ t.height := by
+  cases t with
+  | node k => simp [Tree.height]
+
+mutual
+theorem Tree.accepted_iff (l : Nat) : ∀ (t : Tree) (d : Nat), t.accepted (some l) d = true ↔ d + t.height ≤ l
+  | .node k, d => by
+    have ih := Forest.accepted_iff l k (d + 1)
+    simp only [Tree.accepted, Tree.height]
+    by_cases h : l ≤ d
+    · simp [h]; omega
+    · simp only [h, if_false]
+      rw [ih]
+      omega
+theorem Forest.accepted_iff (l : Nat) : ∀ (f : Forest) (d : Nat), f.accepted (some l) d = true ↔ (f.height = 0 ∨ d + f.height ≤ l)
+  | .nil, d => by simp [Forest.accepted, Forest.height]
+  | .cons t r, d => by
+    have iht := Tree.accepted_iff l t d
+    have ihr := Forest.accepted_iff l r d
+    have hp := Tree.height_pos t
+    simp only [Forest.accepted, Forest.height, Bool.and_eq_true]
+    rw [iht, ihr]
+    have hmax : max t.height r.height = if t.height ≤ r.height then r.height else t.height := by
+      by_cases hle : t.height ≤ r.height
+      · simp [hle, Nat.max_eq_right hle]
+      · simp [hle]; omega
+    rw [hmax]
+    by_cases hle : t.height ≤ r.height
+    · simp only [hle, if_true]; omega
+    · simp only [hle, if_false]; omega
+end
+
+mutual
+theorem Tree.accepted_none : ∀ (t : Tree) (d : Nat), t.accepted none d = true
+  | .node k, d => by simp only [Tree.accepted]; exact Forest.accepted_none k (d + 1)
+theorem Forest.accepted_none : ∀ (f : Forest) (d : Nat), f.accepted none d = true
+  | .nil, _ => by simp [Forest.accepted]
+  | .cons t r, d => by simp [Forest.accepted, Tree.accepted_none t d, Forest.accepted_none r d]
+end
+
+/-- a tree of n nested nodes -/
+def chainTree : Nat → Tree
+  | 0 => .node .nil
+  | n + 1 => .node (.cons (chainTree n) .nil)
+
+theorem chainTree_height (n : Nat) : (chainTree n).height = n + 1 := by
+  induction n with
+  | zero => simp [chainTree, Tree.height, Forest.height]
+  | succ n ih => simp [chainTree, Tree.height, Forest.height, ih]; omega
+
+/-- **C06, nesting depth**: for each kind of recursive structure (expression, statement, type, supertype expression, chains of sub- and supertypes) the
+resolver — the first pass that walks it — accepts a tree exactly when its height is within the regenerated limit; so for
+every accepted input the recursion depth of every later recursive pass (pretty printer, generators: `Tree.height`) is at
+most that limit, whatever the shape of the tree. -/
+theorem C06_nesting_bounded (kind : String) (l : Nat) (hm : (kind, some l) ∈ nestingLimits) (t : Tree) :
+    (t.accepted (some l) 0 = true ↔ t.height ≤ l) ∧ l ≤ 5000 := by
+  have hall : nestingLimits.all (fun p => match p.2 with | some l => decide (l ≤ 5000) | none => false) = true := by decide
+  have := List.all_eq_true.mp hall (kind, some l) hm
+  refine ⟨?_, by simpa using this⟩
+  have := Tree.accepted_iff l t 0
+  simpa using this
+
+/-- all six recursive walks of the resolver (expression, statement, type, supertype expression, chain of subtypes, chain of
+supertypes) carry the limit, and the OTHERWISE branch of CASE is resolved (counted) too -/
+theorem C06_nesting_limits_present :
+    nestingLimits.all (fun p => p.2.isSome) = true ∧ nestingLimits.length = 6 ∧ otherwiseResolved = true := by decide
+
+/-- the tree before `fix: C06-27`: no counter — a chain of any depth is accepted and handed to the recursive passes -/
+theorem C06_nesting_unbounded_witness (n : Nat) : (chainTree n).accepted none 0 = true ∧ (chainTree n).height = n + 1 :=
+  ⟨Tree.accepted_none _ 0, chainTree_height n⟩
+
+example : (chainTree 3).accepted (some 4) 0 = true ∧ (chainTree 4).accepted (some 4) 0 = false := by decide
+
+/-! ## exp2python `python_indent` -/
+
+/-- **C06, exp2python indentation**: for every statement nesting level the bytes written as indentation come from inside
+their source (one `fprintf` per level, or an array that is long enough). -/
+theorem C06_no_overread_python_indent (level : Nat) : indentOut pythonIndent level = .ok level := by
+  have h : pythonIndent = .loop := by decide
+  rw [h]; rfl
+
+/-- seeded regression C06-c2: `fwrite( tabs, 1, indent_level, file )` from 32 tabs — level 33 reads the terminator, 34 past it -/
+theorem C06_python_indent_array_witness : indentOut (.array 32) 33 = .overflow 33 := by decide
+
 /-! ## exit status -/
 
 def exitCfgSmall (c : ExitCfg) : Bool :=
